@@ -1,10 +1,28 @@
-(** C16 — read sets and pattern matching (placeholder until ExprProofs lands in this round). *)
-From Coq Require Import ZArith List Bool.
-From Mx Require Import Expr.
+(** C16 — read sets and pattern matching are semantically exact.  Property theorems only. *)
+From Coq Require Import ZArith List Bool String.
+From Mx Require Import Expr ExprProofs.
 Import ListNotations.
+Open Scope Z_scope.
+
+(** If two states agree on every identifier in the reported read set and on every reported memory
+    cell (mem_read=True: the bytes at the cell's address; mem_read=False: the cell as an atom), the
+    expression has the same value in both — for all trees, valuations, memories, operator meanings. *)
+Theorem C16_get_r_coincidence : forall rho rho' mu mu' iota f e,
+  (forall x, InR x (get_r f e) -> agree rho rho' mu mu' iota f x) ->
+  eval rho mu iota e = eval rho' mu' iota e.
+Proof. exact get_r_coincidence. Qed.
+Print Assumptions C16_get_r_coincidence.
+
+(** the written set of an assignment names its destination *)
 Theorem C16_get_w_dst_id : forall n w r t s, get_w (EAff (EId n w r t) s) = Some [EId n w r t].
 Proof. reflexivity. Qed.
 Print Assumptions C16_get_w_dst_id.
 Theorem C16_get_w_dst_mem : forall a w sg s, get_w (EAff (EMem a w sg) s) = Some [EMem a w sg].
 Proof. reflexivity. Qed.
 Print Assumptions C16_get_w_dst_mem.
+
+(** non-vacuity: a concrete expression whose read set contains an address identifier and a cell *)
+Example C16_nonvacuous :
+  get_r true (EOp "+" [EMem (EId "eax" 32 true false) 32 None; EId "ebx" 32 true false])
+  = [EId "eax" 32 true false; EMem (EId "eax" 32 true false) 32 None; EId "ebx" 32 true false].
+Proof. vm_compute. reflexivity. Qed.
